@@ -221,7 +221,14 @@ def positions(heap):
         out.append((v + vals[i + 1]) / 2 if i + 1 < len(vals) else v + 1)
     return out
 
-def ops_from(heap, nsleeps, maxheap, maxs, nids=3, lookups=(C,)):
+def positions_coarse(heap):
+    """below the earliest entry and equal to each distinct time point (a `now` strictly between two time points or above the latest one behaves like the next lower time point under `<=`)"""
+    vals = sorted(set(x[0] for x in heap))
+    if not vals: return [F(0)]
+    return [vals[0] - 1] + vals
+
+
+def ops_from(heap, nsleeps, maxheap, maxs, nids=3, lookups=(C,), coarse_now=False):
     ids = []
     for x in heap:
         if x[1] not in ids: ids.append(x[1])
@@ -234,7 +241,7 @@ def ops_from(heap, nsleeps, maxheap, maxs, nids=3, lookups=(C,)):
     for lk in lookups:
         for i in ids + fresh:
             out.append((lk, i))
-    for now in positions(heap):
+    for now in (positions_coarse(heap) if coarse_now else positions(heap)):
         out.append((G, now))
     return out
 
@@ -274,7 +281,7 @@ def normalise(ops):
 
 
 
-def cover_vectors(max_prefix, steps='LG', lookups=(C,), maxheap=3, maxs=8):
+def cover_vectors(max_prefix, steps='LG', lookups=(C,), maxheap=3, maxs=8, coarse_now=False):
     """for every abstract heap state with <= maxheap entries (alive or emptied) reachable at all: its shortest history (<= max_prefix
     operations) followed by every single operation of the kinds in `steps` (S sleep with every identifier in use / a fresh one at
     every position relative to the entries present, L lookup of every identifier in use / an unused one, G get_expired at every
@@ -290,7 +297,7 @@ def cover_vectors(max_prefix, steps='LG', lookups=(C,), maxheap=3, maxs=8):
         for o in pre:
             heap = step(heap, o)
         ns = sum(1 for o in pre if o[0] == S)
-        for op in ops_from(heap, ns, maxheap, maxs, lookups=lookups):
+        for op in ops_from(heap, ns, maxheap, maxs, lookups=lookups, coarse_now=coarse_now):
             if ('S' if op[0] == S else 'G' if op[0] == G else 'L') not in steps:
                 continue
             h, nvals, nid = normalise(pre + [op])
@@ -408,8 +415,9 @@ def plan(tier):
                               'symbolic and CBMC does not terminate in 300 s for 1 sleep + 1 get_expired); thread / thread-pool mode'))
     # one step from every reachable abstract heap state (<= 3 entries, alive or emptied)
     if tier == 'quick':
-        cv, nst, ntot = cover_vectors(COVER_QUICK_PREFIX, 'LG', (C,))
-        what = 'the %d of them whose shortest history has <= %d operations, followed by every single cancel / get_expired' % (nst, COVER_QUICK_PREFIX)
+        cv, nst, ntot = cover_vectors(COVER_QUICK_PREFIX, 'LG', (C,), coarse_now=True)
+        what = ('the %d of them whose shortest history has <= %d operations, followed by every single cancel / get_expired (get_expired below the earliest and at each time point; '
+                'positions strictly between two time points and above the latest one are in the thorough tier)' % (nst, COVER_QUICK_PREFIX))
     else:
         cv, nst, ntot = cover_vectors(11, 'SLG', (C, CE, R))
         what = 'all of them, followed by every single sleep / cancel / cancel(e) / remove / get_expired'
@@ -424,12 +432,12 @@ def plan(tier):
                       bounds='heap of <= 3 entries (alive or emptied) before the step, <= 8 sleeps per history, 3 identifiers',
                       outside='states with more than 3 heap entries; two consecutive steps from a state other than those that are themselves shortest histories'))
     # heap order: k sleeps in every arrival order, then one get_expired per time value in ascending order
-    ov = order_vectors(6, 6 if tier == 'quick' else 1) + (order_vectors(5, 1) if tier != 'quick' else []) + (order_vectors(7, 12) if tier != 'quick' else [])
+    ov = order_vectors(6, 12 if tier == 'quick' else 1) + (order_vectors(5, 1) if tier != 'quick' else []) + (order_vectors(7, 12) if tier != 'quick' else [])
     units.append(dict(engine='e1', name='h_order', tu='C12.cpp', defines=['C12_MANUAL'], entry='h_manual', unwind=200, vectors=ov,
                       concrete=[([0, 12, 0, 0, 0, 0, 0, 3, 0, 0, 1, 0, 0, 2, 0, 0, 4, 0, 0, 5, 4, 0, 4, 1, 4, 2, 4, 3, 4, 4, 4, 5], [])],
                       space='manual mode, heap order: k pending sleeps with pairwise different time points scheduled in a given arrival order (a permutation of 0..k-1), then get_expired(now) for now = 0, 1, .. k-1: '
                             'each call must hand out exactly the sleep that is due; %s' %
-                            ('k = 6, every 6th of the 720 arrival orders (enumeration order of itertools.permutations, offset 0)' if tier == 'quick' else
+                            ('k = 6, every 12th of the 720 arrival orders (enumeration order of itertools.permutations, offset 0)' if tier == 'quick' else
                              'k = 5 and k = 6: every arrival order; k = 7: every 12th of the 5040 arrival orders'),
                       data='none symbolic', bounds='<= 7 pending sleeps, distinct time points, one identifier',
                       outside='more pending sleeps; ties; cancels interleaved with a deep heap (h_cover has them for <= 3 entries)'))
@@ -451,11 +459,13 @@ def plan(tier):
                       outside='start() in several threads / recursively; a second start() on the same scheduler (coroutine frame in alloca storage); thread and thread-pool mode (needs the C11 thread model)'))
     K = 8
     vm = [[0, d, e, k] for d in (1, 2) for e in range(5) for k in range(K)] + [[1, d, e, 0] for d in range(3) for e in range(5)]
+    if tier == 'quick':
+        vm = [v for v in vm if v[0] == 1 or (v[1] + v[2] + v[3]) % 2 == 0]      # every second (deadline, foreign time point, position) combination
     units.append(dict(engine='e1', name='h_start_mt', tu='C12.cpp', defines=['C12_START'], entry='h_start_mt', unwind=14, vectors=vm,
                       concrete=[([0, 1, 0, 1], []), ([0, 2, 1, 3], []), ([1, 1, 0, 0], []), ([1, 0, 2, 0], []), ([1, 2, 4, 0], []), ([0, 1, 3, 7], [])],
                       space='the scheduling thread (worker loop of start(awaitable), virtual clock, one local sleeper with deadline D in {4, 8} or none) against another thread that calls sleep_until(e), e in {2..10}: '
                             'the other thread\'s complete call is placed in front of the k-th acquisition of the scheduler mutex by the scheduling thread (k = 1..%d), or while the scheduling thread sits in its timed wait '
-                            '(schedule() must wake it when the new entry is the earliest); full product' % K,
+                            '(schedule() must wake it when the new entry is the earliest); %s' % (K, 'every second combination of the lock-region placements, all timed-wait placements' if tier == 'quick' else 'full product'),
                       data='none symbolic (time values enumerated)', bounds='one local sleeper, one sleep scheduled by the other thread, one pre-emption',
                       outside='a real second OS thread running the worker (thread / pool mode start-up and shutdown); several foreign sleeps'))
     return units
